@@ -28,7 +28,7 @@ CLAIMS = {
              'C12_wrapper_broadcast_refuted keeps the witness for the old code.'),
     'C01': dict(
         technique='Coq proof that the scheduler\'s op list, executed gate by gate, satisfies every node\'s equation for all well-formed acyclic netlists (+ uniqueness), over regenerated LUT/dispatch tables; memory map by certificate; exact correspondence; gate-by-gate oracle',
-        text='Proof (end to end for all option combinations, from the compared model down to the unique gate-by-gate solution). SCHEDULER SOURCE TIE (round 3): translate/gen_simops.py regenerates Gen/SimOpsSrc.v from the current text of SimOps.__init__; the op-building loop is PROVED equal to build_ops for every netlist (C01_simops_ops_source_is_model[_wf], incl. the a_ctrl columns), the stem table and the level / reference-count pass equal the model under wf_netlist (C07_simops_stems / _levels_source_is_model[_wf]), and the whole constructor equals its allocation section run on the model\'s rows / stems / counts / level boundaries (C08_simops_source_prefix_wf_partial; the allocation section itself is pinned and correspondence-tied). Proved for all inputs: every LUT constant equals its primitive\'s '
+        text='Proof (end to end for all option combinations, from the compared model down to the unique gate-by-gate solution). SCHEDULER SOURCE TIE (round 3): translate/gen_simops.py regenerates Gen/SimOpsSrc.v from the current text of SimOps.__init__; the op-building loop is PROVED equal to build_ops for every netlist (C01_simops_ops_source_is_model[_wf], incl. the a_ctrl columns), the stem table and the level / reference-count pass equal the model under wf_netlist (C07_simops_stems / _levels_source_is_model[_wf]), and the WHOLE translated constructor equals Model.SimOps.build for all four option combinations (C08_simops_source_is_model: the allocation section through the translated Heap is proved equal to the model\'s allocation events), so every map / schedule theorem speaks about the constructor as written; the order the constructor iterates over is the translated Circuit.topological_order (C01_simops_ops_source_uses_translated_order). Proved for all inputs: every LUT constant equals its primitive\'s '
              'Boolean function; both 2-valued dispatch copies (re-traced from the source on every run) compute it per lane; primitive '
              'selection; opcode injectivity; lane independence for any batch size; and the MAIN theorem: for EVERY well-formed, '
              'combinationally acyclic netlist and EVERY stimulus the op list that SimOps builds (Kahn order, interface BUF/INV ops, forks, '
@@ -124,7 +124,7 @@ CLAIMS = {
         note='Modelled not verified: SimOps.__init__ (correspondence). Interleavings below kernel-instance granularity are not modelled (the mock launcher cannot exhibit them).'),
     'C08': dict(
         technique='Coq proofs: allocator invariants over all alloc/free histories (refinement to a block list); SimOps.build passes a proved-sound ownership certificate for ALL netlists and all four c_reuse x strip_forks combinations (invariant over the alloc/release events: reference count = pins + reads to come); step-by-step correspondence; overlap oracle',
-        text='Proof (full for the allocator as written and the modelled map). ALLOCATOR SOURCE TIE (round 3): translate/gen_heap.py regenerates Gen/HeapSrc.v from the current text of class Heap (state-passing let-chain, every partial Python operation as an option in evaluation order, the enumerate loop as a structural scan) and the translated alloc / free / __init__ are PROVED equal to the hand model on every state reachable by well-formed use -- no KeyError / IndexError can occur there (C08_heap_source_is_model; exact preconditions and their necessity: C08_heap_source_exact, _precondition_needed), so the allocator theorems speak about the code as written. MAP SOURCE TIE (partial): C08_simops_source_prefix_wf_partial -- the translated constructor = its (pinned, correspondence-tied) allocation section on the model\'s rows / stems / reference counts / level boundaries; C08_simops_alloc_section_pinned. ALLOCATOR: for ALL histories of well-formed use the Gallina transcription of sim.Heap keeps its '
+        text='Proof (full for the allocator as written and the modelled map). ALLOCATOR SOURCE TIE (round 3): translate/gen_heap.py regenerates Gen/HeapSrc.v from the current text of class Heap (state-passing let-chain, every partial Python operation as an option in evaluation order, the enumerate loop as a structural scan) and the translated alloc / free / __init__ are PROVED equal to the hand model on every state reachable by well-formed use -- no KeyError / IndexError can occur there (C08_heap_source_is_model; exact preconditions and their necessity: C08_heap_source_exact, _precondition_needed), so the allocator theorems speak about the code as written. MAP SOURCE TIE (full): C08_simops_alloc_source_is_model (the translated allocation section, sim.py:263-320, run through the translated Heap = the model\'s allocation events, for every well-formed acyclic netlist of known gates and all four option combinations), C08_simops_source_is_model (the whole translated constructor = build), C08_simops_source_total_certified (the code as written succeeds and its memory map passes the ownership certificate). ALLOCATOR: for ALL histories of well-formed use the Gallina transcription of sim.Heap keeps its '
              'regions tiling the managed range with free regions coalesced, never returns a region overlapping a live one, keeps live '
              'regions unchanged, reports the true high-water mark, and frees commute (so Python\'s set iteration order is irrelevant); compared with sim.Heap '
              'after EVERY step of random histories (full tables). MAP: the ownership certificate is proved sound (a map that passes it makes flat-memory '
@@ -153,7 +153,7 @@ CLAIMS = {
         note='As C03; capture with sd>0 is outside the claim; flat-memory statements need the region certificate (c_reuse off, no fork stripping).'),
     'C17': dict(
         technique='Coq proof of Kahn-traversal and fan-in theorems for all well-formed netlists over a Gallina transcription; exact-sequence correspondence; graph oracle',
-        text='Proof (traversals and fan-in full, name lookup partial). For ALL well-formed netlists (pins may be unconnected, cut at state elements) the '
+        text='TRAVERSALS FROM SOURCE (round 3): translate/gen_traversals.py regenerates Gen/TraversalsSrc.v from topological_order, topological_order_with_level, topological_line_order, reversed_topological_order, fanin and s_nodes on every run (a generator = the list of its yields, numpy counters with the width the source declares, every raising operation option-valued); each is PROVED equal to its hand model for every well-formed netlist (C17_traversals_source_is_model; side conditions forced by the source: fewer than 2^32 connected input pins per node for the uint32 visit counter, fewer than 2^31 nodes for the int32 level array, origins inside the circuit; necessity witnesses), so the traversal theorems hold for the code as written (C17_source_complete, C17_source_reverse_is_mirror); the translated functions are also compared with the implementation on every generated circuit. Proof (traversals and fan-in full, name lookup partial). For ALL well-formed netlists (pins may be unconnected, cut at state elements) the '
              'transcription of topological_order yields every node at most once, sources first, every combinational driver before its '
              'reader, and -- if the combinational part is acyclic -- every node exactly once; levels are the longest combinational '
              'distance; line order covers every line once; reverse iteration is literally the forward traversal of the reversed graph '
@@ -286,7 +286,7 @@ CLAIMS = {
     'C09': dict(
         technique='Coq proof of a graph-consistency invariant for a Gallina transcription of circuit.py over all edit histories; '
                   'state-by-state correspondence on random histories; independent invariant oracle with shrinking',
-        text='Proof (full for all twelve public edit operations). Model/Circuit.v transcribes GrowingList, IndexList, Node, Line and the Circuit '
+        text='PRIMITIVES FROM SOURCE (round 3): translate/gen_circuit_prims.py regenerates Gen/CircuitPrimsSrc.v from GrowingList.__setitem__ / free_index, IndexList.__delitem__, Node.__init__ / remove, Line.__init__ / remove on every run; each is PROVED equal to the primitive of the edit model for ALL states, raising cases included (C09_prims_source_is_model), equality of states up to pointwise equal object stores is respected by the invariant and by every primitive step (C09_ceq_respected), and every well-formed primitive history executed by the translated source does not raise and ends in a consistent graph (C09_prims_source_history); the generated histories are also run with the primitive steps executed by the translated source and compared with the real Circuit after every step. Proof (full for all twelve public edit operations). Model/Circuit.v transcribes GrowingList, IndexList, Node, Line and the Circuit '
              'mutators with creation-order ids for object identity. Proved for ALL circuits / ALL histories of well-formed use '
              '(fresh names, explicit pins only on free positions and on forks only the next one, nodes removed after their lines, ports not '
              'removed): Node(), Line() (implicit/explicit pins), Line.remove (swap-with-last, fork squeeze and renumbering), Node.remove, '
